@@ -132,6 +132,12 @@ func Load(dir string, patterns []string, overlay map[string][]byte) (*Program, e
 			ti.Typ = p.resolveType(ti.Path, nil)
 		case "mapval":
 			t := p.resolveType(ti.Path, nil)
+			if strings.HasPrefix(ti.Path, "var:") {
+				// the map type of a package-level variable
+				if g := p.lookupGlobal(strings.TrimPrefix(ti.Path, "var:")); g != nil {
+					t = g.Type().Underlying().(*types.Pointer).Elem()
+				}
+			}
 			var mt *types.Map
 			if t != nil {
 				mt, _ = t.Underlying().(*types.Map)
